@@ -76,7 +76,13 @@ claim("C01",
       "Oracle: SQL's logical clause order. HashSet<String>, strum AsRefStr, contains_any, the filter/fold in can_materialize and "
       "infer_complexity_expr are trusted by contract; split_off_back's loop and anchor_split are not under contract.")
 
-prop("C04", ["window_frame", "split_order"],
+def _c04_split(name):
+    lab = name.split(".", 1)[1]
+    return (lab in ("IC1", "IC2", "IC3", "CM1", "CM2", "SO1c", "RO1", "RO2", "RO3", "CX1") or lab.startswith("SO1.Compute.")
+            or lab == "SO1.Take.Compute" or lab.endswith(".safety"))
+
+
+prop("C04", ["window_frame", "split_order"], select={"split_order": _c04_split},
      not_covered="that partition/sort reach Compute.window (lowering), row-count preservation, create_filter_by_row_number")
 claim("C04",
       "PARTIAL. Proved on the real code, for all inputs: the window transform maps expanding / rolling:n / rows / range to exactly the documented "
